@@ -106,7 +106,7 @@ func main() {
 	child.Register("cases", runCases)
 	child.Main()
 	r := ev.Start("C05", "exploration")
-	r.SetRule("same generator as C03 (independent seeds): executions of real rings (memory/AOF/SQLite) with single-writer clients and 1-3 churn goroutines; at quiescence (pointer oracle reached) every live node's RangeKeys(0,0) and ListKeys('') are read; a quarter of the executions also hold lease-only keys that expire (1 s TTL, real time) before a second churn phase moves their ranges; distinct+non-trivial = hash of the interleaving of membership hook events across nodes, for executions with at least one completed join/leave and one acknowledged write; keys are biased to many (16-40) so that every node owns some")
+	r.SetRule("same generator as C03 (independent seeds): executions of real rings (memory/AOF/SQLite) with single-writer clients and 1-3 churn goroutines; at quiescence (pointer oracle reached) every live node's RangeKeys(0,0) and ListKeys('') are read; a quarter of the executions also hold lease-only keys that expire (1 s TTL, real time) before a second churn phase moves their ranges; distinct+non-trivial = hash of the interleaving of membership hook events across nodes, for executions with at least one completed join/leave and one acknowledged write; keys are biased to many (16-40) so that every node owns some; a fifth of the executions additionally store 260-560 write-once ballast keys before the churn, so that hand-overs move hundreds of keys")
 	r.Assume("ownership ranges are computed from the sorted ids of the live nodes after the pointer oracle has been reached")
 	rng := r.Rand("cases-c05")
 	n := r.Pick(24, 300)
@@ -132,6 +132,9 @@ func main() {
 		}
 		if i%4 == 3 {
 			c.Leases = true // lease-only keys that expire before a second churn phase
+		}
+		if i%5 == 2 {
+			c.Ballast = 260 + (i*37)%300 // every hand-over moves hundreds of keys
 		}
 		if !r.Quick() && i%6 == 3 && c.Backend == int(ringlab.Memory) {
 			// the real RPC path between the nodes (RemoteNode, twirp over HTTP/2, production timeouts)
